@@ -88,8 +88,8 @@ Proof. exact ex_run2. Qed.
 
 Example C09_example_trace :
   firstn 6 (adoption_trace ex_st0 ex_sched2) =
-  [(0%nat, LTid 0, 1%Z, 0%Z); (0%nat, LTid 0, 0%Z, 0%Z); (0%nat, LBit 0, 0%Z, 1%Z);
-   (0%nat, LTid 3, 1%Z, 0%Z); (0%nat, LTid 3, 0%Z, 0%Z); (0%nat, LBit 3, 0%Z, 1%Z)].
+  [(0%nat, LTidPlain 0, 1%Z, 0%Z); (0%nat, LTid 0, 0%Z, 0%Z); (0%nat, LBit 0, 0%Z, 1%Z);
+   (0%nat, LTidPlain 3, 1%Z, 0%Z); (0%nat, LTid 3, 0%Z, 0%Z); (0%nat, LBit 3, 0%Z, 1%Z)].
 Proof. exact ex_trace_prefix. Qed.
 
 Example C09_example_forced_collect :
